@@ -65,6 +65,39 @@ DEFECTS = [
           suggested_fix="none small (every append of every emitter needs its result checked); recorded as known finding " + k["id"])
      for k in KNOWN]
 
+
+MANIFEST = dict(
+   text="PARTIAL BY NATURE. Proved (Lean 4, for EVERY allocator oracle, hence for every single and double fault): over an allocation model of "
+        "json-c (state = allocator calls made, live blocks (id, size), errno; Model/Alloc.lean transcribes the C at HEAD) the functions "
+        "printbuf_new / printbuf_extend / printbuf_memappend, array_list_new2 / expand_internal / shrink / add / put_idx, lh_table_new / "
+        "lh_table_resize (as lh_table_insert_w_hash calls it) / lh_table_insert_w_hash, json_object_new_boolean|int|double / new_string_len / "
+        "new_double_s / new_array_ext / new_object, json_object_array_add / array_put_idx / object_add_ex (new key, replace, KEY_IS_NEW, "
+        "CONSTANT_KEY), _json_object_set_string_len, json_tokener_new_ex, json_object_put of an unshared tree, json_object_deep_copy (with its "
+        "unwinding at every level), json_pointer_set_single_path and json_pointer_set (failure part), and the tokener's array_add / "
+        "object_value_add attach step never fault (no free of a dead block, no integer overflow) and end either in the normal result with the live "
+        "set = old live set plus exactly the blocks the result owns (minus what the call is documented to release) or in the documented failure "
+        "value with the caller's objects unchanged and the live set EXACTLY as before; a failure implies that a call of the window was refused "
+        "(or an argument-range refusal that allocates nothing), so a fault-free run succeeds. NOT proved, checked by FAULT ENUMERATION over a "
+        "corpus (this is testing, not proof): whole workloads - parse (json_tokener_parse_verbose / parse_ex, one-shot and split), construct, "
+        "serialize under 8 flag sets, json_patch_apply, json_pointer_setf - are run once to count their N allocator calls and N+1 more times "
+        "with the k-th call failing (k = 1..N+1; sampled pairs in the thorough tier) under ASan/UBSan with an interposed allocator, checking "
+        "the failure channel or the fault-free result, live-block delta 0 after cleanup, before/after dumps of caller-owned trees, and "
+        "serialized text = none or the fault-free text. For the modelled functions the same runs are the correspondence check: the Lean driver "
+        "must predict result, number of calls, errno class and the allocator request trace (kind, size, block freed) of every line.",
+   note="Known finding C08-serializer-unchecked-append (the emitters ignore failed appends: truncated text instead of NULL) is modelled "
+        "byte for byte (Model/AllocSer.lean, theorem serialize_truncates) and excluded by tag; any other leak / crash / wrong result in a "
+        "serialization workload is still a violation. Trusted: Lean kernel + propext/Classical.choice/Quot.sound; the hand-written model (tied "
+        "to the code by 11 shape facts regenerated from the source by tools/extract/st_alloc.py, 11 sizeof constants, and the per-call request "
+        "traces of the correspondence run); harness/alloc.c (allocator interposition, block tracking, dumps); ASan/UBSan/LSan. Assumed: "
+        "only the library's own allocator calls fail (not libc-internal ones such as newlocale in json_tokener_parse_ex); a failing call "
+        "has no side effect; trees are unshared and not serialised before; deep copy sources have < 2^26 children per container and distinct "
+        "member names; json_patch_apply may leave *base half-patched on failure (documented). json_pointer_set is proved for the failure side "
+        "only (pointerSetStatement records the full statement). Defects found and fixed in /repo through this check: 0b77e7e (parser leaked the "
+        "completed child when the attach failed), 55cbb3f (object_add_ex leaked its key copy when the resize failed).",
+   technique="Lean 4 proof (weakest-precondition calculus over an allocation monad, ownership accounting by induction over trees) for the "
+             "modelled allocation sites + fault enumeration / model-implementation correspondence run over whole workloads",
+   design="6/C08")
+
 # --------------------------------------------------------------------------- values (dump format of harness/jtree.h)
 
 
@@ -268,7 +301,7 @@ def modelled_workloads(rng, tier):
     w += ["toknew %d" % n for n in (0, 1, 32, 1000)]
     w += ["copy " + dump(t) for t in TREES]
     w += ["ptrset %s %s %s" % (dump(t), hx(p), dump(v)) for t, p, v in PTRSETS]
-    for _ in range(25 if tier == "quick" else 200):
+    for _ in range(25 if tier == "quick" else 500):
         w.append("copy " + dump(rand_val(rng, 3, plain_double=True, wide=rng.chance(0.3))))
         t, p, v = rng.choice(PTRSETS)
         w.append("ptrset %s %s %s" % (dump(t), hx(p), dump(rand_val(rng, 2))))
@@ -304,7 +337,7 @@ def other_workloads(rng, tier):
         w.append("construct " + dump(rand_val(rng, 3, plain_double=True)))
         w.append("ser %s %d" % (dump(rand_val(rng, 3)), rng.choice(SER_FLAGS)))
     if tier == "thorough":
-        for _ in range(300):
+        for _ in range(800):
             v = rand_val(rng, 3, wide=rng.chance(0.3))
             w.append("parse %s 0 0 %s" % (rng.choice("ve"), hx(to_json(v))))
             d = to_json(rand_val(rng, 3))
@@ -396,7 +429,15 @@ def verdict(spec):
     return bad
 
 
+_model_div = {}      # case id -> (line index, detail): first line on which implementation != Lean model
+
+
 def compare_line(case, i, il, m, s, tags):
+    """Property verdict per line.  A difference between implementation and Lean model (correspondence) must not
+    hide a later line of the same case on which the property itself fails (check.py stops a case at its first
+    divergence), so it is only recorded here and reported by check_case below."""
+    if i == 0:
+        _model_div.pop(case["id"], None)
     spec = il.split(" ## ")[0]
     name = case["lines"][i].split()[0]
     oc = "fail" if (" err=E" in il or spec.startswith(("null", "fail", "text=none")) or "rc=-1" in spec or "ret=0 " in spec + " ") else "ok"
@@ -416,10 +457,15 @@ def compare_line(case, i, il, m, s, tags):
     if m.startswith("FAULT"):
         # the model does not cover this code shape (a structural fact of st_alloc.py is false) or would free a
         # dead block: the correspondence is lost; the property itself is judged by the harness's oracle above
-        return ("model", "the Lean allocation model reaches a fault here: " + m)
-    if m != "*" and il != m:
-        return ("model", "implementation differs from the Lean allocation model (result, calls, errno or request trace)")
+        _model_div.setdefault(case["id"], (i, "the Lean allocation model reaches a fault here: " + m))
+    elif m != "*" and il != m:
+        _model_div.setdefault(case["id"], (i, "implementation differs from the Lean allocation model (result, calls, errno or request trace)"))
     return None
+
+
+def check_case(case, impl_lines, model_lines):
+    d = _model_div.get(case["id"])
+    return [("model", d[0], d[1])] if d else []
 
 
 def extra_coverage():
